@@ -1088,11 +1088,11 @@ Proof.
       try (inversion H; auto; fail).
 Qed.
 
-Lemma kind_floor_int : forall a r, floor_fits a = true -> sc_floor a = Ok r -> exists z, r = VI z.
+Lemma kind_floor_int : forall a r, s_floor_fits a = true -> s_floor a = Ok r -> exists z, r = VI z.
 Proof.
-  intros a r Hf H. destruct a as [z|x| | | | |]; try discriminate Hf.
+  intros a r Hf H. unfold s_floor_fits, s_floor in *. destruct a as [z|x| | | | |]; try discriminate Hf.
   - inversion H. eexists; reflexivity.
-  - cbn [sc_floor floor_fits] in *. destruct (rfloor_exact x) as [z|]; [|discriminate Hf]. rewrite Hf in H. inversion H. eexists; reflexivity.
+  - cbn [sc_floor_gen floor_fits_gen] in *. destruct (rfloor_exact x) as [z|]; [|discriminate Hf]. rewrite Hf in H. inversion H. eexists; reflexivity.
 Qed.
 
 (* ------------------------------------------------------------------ the dispatch tables the model was written against *)
@@ -1740,17 +1740,49 @@ Proof.
 Qed.
 
 (* Floor when every leaf fits the integer range (otherwise NumPy keeps the whole array real: class homogenise) *)
-Lemma floor_holds : forall a, canonical a = true -> all_leaves floor_fits a = true ->
+Lemma clip64_in_range : forall z, Z.abs z <? two63 = true -> clip64 z = z.
+Proof.
+  intros z H. apply Z.ltb_lt in H. unfold clip64.
+  assert (H1 : (z <? - two63) = false) by (apply Z.ltb_ge; unfold two63 in *; lia).
+  assert (H2 : (two63 <=? z) = false) by (apply Z.leb_gt; unfold two63 in *; lia).
+  rewrite H1, H2. reflexivity.
+Qed.
+
+Lemma floor_holds : floor_guard_strictly_below_2_63 = true ->
+  forall a, canonical a = true -> all_leaves s_floor_fits a = true ->
   m_monad "eval_monad_floor" a = s_monad "eval_monad_floor" a.
 Proof.
-  intros a Hc Hf. unfold m_monad. rewrite Hc. change (s_monad "eval_monad_floor" a) with (s1 sc_floor a).
+  intros Hg a Hc Hf. unfold m_monad. rewrite Hc. change (s_monad "eval_monad_floor" a) with (s1 s_floor a).
   cbn [negb]. unfold m_floor.
-  rewrite (vec1_ext floor_leaf (leaf1 sc_floor) (all_leaves floor_fits)).
+  rewrite (vec1_ext floor_leaf (leaf1 s_floor) (all_leaves s_floor_fits)).
   - apply vec1_spec. lia.
-  - intros x Hx. unfold floor_leaf. rewrite forall_leaves_all, Hx. reflexivity.
+  - intros x Hx. unfold floor_leaf, floor_fits, sc_floor. rewrite Hg. fold s_floor_fits. fold s_floor.
+    rewrite forall_leaves_all, Hx. reflexivity.
   - intros l x Hl Hx. eapply all_leaves_in; eassumption.
   - exact Hf.
 Qed.
+
+(* an integer result of Floor is the mathematical floor: inside the guard nothing wraps *)
+Lemma floor_no_wrap : forall r z, rfloor_exact r = Some z -> in_guard true z = true -> s_floor (VR r) = Ok (VI z).
+Proof. intros r z H G. unfold s_floor. cbn [sc_floor_gen]. rewrite H, G. rewrite clip64_in_range by exact G. reflexivity. Qed.
+
+(* with `<=` in the guard the real 2^63 passes and wraps to the int64 minimum *)
+Lemma floor_guard_refuted :
+  let r := real_of_bits 4890909195324358656 in     (* 2.0^63 *)
+  rfloor_exact r = Some two63 /\ sc_floor_gen false (VR r) = Ok (VI int64_min) /\ s_floor (VR r) = Ok (VR r).
+Proof. vm_compute. repeat split; reflexivity. Qed.
+
+(* ------------------------------------------------------------------ verbs are functions of the operand values *)
+Lemma shared_operand : forall w, w = true -> forall (verb : val -> val -> res) a bs,
+  run_shared w verb (Some a) bs = (map (verb a) bs, Some a).
+Proof.
+  intros w -> verb a. induction bs as [|b r IH]; [reflexivity|].
+  cbn [run_shared apply_shared map]. rewrite IH. reflexivity.
+Qed.
+
+Lemma shared_operand_refuted : forall (verb : val -> val -> res) a b1 b2,
+  fst (run_shared false verb (Some a) [b1; b2]) = [verb a b1; Unmod].
+Proof. reflexivity. Qed.
 
 Lemma reciprocal_holds : forall a, canonical a = true -> m_monad "eval_monad_reciprocal" a = s_monad "eval_monad_reciprocal" a.
 Proof.
@@ -2467,4 +2499,53 @@ Proof.
     rewrite (positions_ok _ (fun x => s_same x (VR r)) l 0); [reflexivity|].
     intros x Hx. rewrite Forall_forall in F. pose proof (rshape_nil_atom _ (F x Hx)) as Nx.
     destruct x; try discriminate Nx; cbn [sc_equal s_same num_eqb b2v]; match goal with |- context [if ?c then _ else _] => destruct c end; reflexivity.
+Qed.
+
+(* ------------------------------------------------------------------ Power (T1.op) and Index-in-Depth *)
+Local Open Scope string_scope.
+Local Open Scope Z_scope.
+
+Definition pow_dom : val -> val -> bool := scdom_of "eval_dyad_power".
+Lemma pgood_pow : pgood pow_dom.
+Proof. intros x y H. destruct x; destruct y; try discriminate H; split; intros; try discriminate; reflexivity. Qed.
+
+Lemma power_holds_outside_K : forall a b v, canonical a && canonical b = true ->
+  dom_dyad "eval_dyad_power" a b = true -> k_dyad "eval_dyad_power" a b = "" ->
+  s_dyad "eval_dyad_power" a b = Ok v -> m_dyad "eval_dyad_power" a b = Ok v.
+Proof.
+  intros a b v Hc Hd Hk Hs.
+  change (dom_dyad "eval_dyad_power" a b) with (conformable a b && ((all_pairs pow_dom a b && true) || false || false)) in Hd.
+  change (s_dyad "eval_dyad_power" a b) with (s2 sc_pow a b) in Hs.
+  vec_op_tac sc_pow pgood_pow Hc Hd Hk Hs.
+Qed.
+
+Lemma index_path_spec : forall zs fuel a, (List.length zs < fuel)%nat -> path_ok a zs = true ->
+  index_path fuel a zs = Ok (s_path a zs).
+Proof.
+  induction zs as [|i zs IH]; intros fuel a Hf Hp; (destruct fuel as [|f']; [cbn in Hf; lia|]); [reflexivity|].
+  cbn [path_ok] in Hp. destruct a as [z|r|c|s|s|l|]; try discriminate Hp.
+  apply andb_true_iff in Hp. destruct Hp as [Hp Hr]. apply andb_true_iff in Hp. destruct Hp as [H0 H1].
+  apply Z.leb_le in H0. apply Z.ltb_lt in H1.
+  cbn [index_path s_path members]. rewrite py_index_in_range by lia. cbn [bind]. apply IH; [cbn in Hf; lia|exact Hr].
+Qed.
+
+Lemma index_in_depth_holds : forall a b, canonical a && canonical b = true ->
+  dom_dyad "eval_dyad_index_in_depth" a b = true ->
+  m_dyad "eval_dyad_index_in_depth" a b = s_dyad "eval_dyad_index_in_depth" a b.
+Proof.
+  intros a b Hc Hd. unfold m_dyad. rewrite Hc. cbn [negb].
+  change (m_index_in_depth a b = s_dyad "eval_dyad_index_in_depth" a b).
+  destruct a as [z|r|c|s|s|l|]; try (destruct b; discriminate Hd).
+  destruct b as [i|r|c|s|s|lb|]; try discriminate Hd.
+  - change (dom_dyad "eval_dyad_index_in_depth" (VL l) (VI i)) with ((npdepth (VL l) =? 1)%nat && (0 <=? i) && (i <? zlen l)) in Hd.
+    apply andb_true_iff in Hd. destruct Hd as [Hd H1]. apply andb_true_iff in Hd. destruct Hd as [_ H0].
+    apply Z.leb_le in H0. apply Z.ltb_lt in H1. cbn [m_index_in_depth]. rewrite py_index_in_range by lia. reflexivity.
+  - destruct lb as [|x r]; [discriminate Hd|].
+    change (dom_dyad "eval_dyad_index_in_depth" (VL l) (VL (x :: r))) with
+      ((npdepth (VL (x :: r)) =? 1)%nat && forallb is_int (x :: r) && path_ok (VL l) (zints (VL (x :: r)))) in Hd.
+    apply andb_true_iff in Hd. destruct Hd as [Hd Hp]. apply andb_true_iff in Hd. destruct Hd as [_ Hall].
+    destruct (ints_of_all_int _ Hall) as [zs Hz].
+    assert (Ez : zints (VL (x :: r)) = zs) by (unfold zints; cbn [members]; rewrite Hz; reflexivity).
+    change (s_dyad "eval_dyad_index_in_depth" (VL l) (VL (x :: r))) with (Ok (s_path (VL l) (zints (VL (x :: r))))).
+    rewrite Ez in *. unfold m_index_in_depth. rewrite Hz. apply index_path_spec; [lia|exact Hp].
 Qed.
